@@ -226,8 +226,9 @@ class ThreadSched:
     list of that task's own line-event counts at which it is pre-empted.
     """
 
-    def __init__(self, funcs, order, switches):
+    def __init__(self, funcs, order, switches, fuel=None):
         self.funcs = funcs
+        self.fuel = fuel  # per-task bound on line events (liveness oracle of the callers that need one)
         self.n = len(funcs)
         self.order = list(order)
         rank_of = {t: r for r, t in enumerate(self.order)}
@@ -260,6 +261,10 @@ class ThreadSched:
             if event == "line":
                 SIM.steps += 1
                 self.local[idx] += 1
+                if self.fuel is not None and self.local[idx] > self.fuel:
+                    from ..core import SimFuelExhausted
+
+                    raise SimFuelExhausted(f"more than {self.fuel} line events")
                 if mine and self.local[idx] >= mine[0]:
                     while mine and self.local[idx] >= mine[0]:
                         mine.pop(0)
